@@ -111,8 +111,9 @@ impl FuncResolve for ExistingArrayWithParenthesis {
         name: Name,
         args: Expressions,
     ) -> Result<Expression, LintErrorPos> {
-        // convert args
-        let converted_args = args.convert_in(ctx, extra.element)?;
+        // convert args (the array indices are ordinary expressions,
+        // regardless of the context of the array element itself)
+        let converted_args = args.convert_in(ctx, ExprContext::Default)?;
         // convert name
         let VariableInfo {
             expression_type, ..
